@@ -2959,7 +2959,19 @@ def run(chk: core.Check):
     chk.required_branches += mag_required()
     # simplify_distribution = True: every cell of the lattice, the merging / renaming branches, anonymize_annotations
     chk.required_branches += simplify_required()
-    chk.required_branches += SRC_REQUIRED
+    # kind 'srchist' observes the cache through private attributes; on a tree that renamed them (a harmless rewrite,
+    # harmless/C06-h1) every case of the kind is counted as skipped, so its branches cannot be demanded there
+    # (demanding them ended the run with exit 2 "generator blind" on such a tree)
+    try:
+        import perceval as _pcvl
+        _probe = _pcvl.Source()
+        _src_private_ok = all(hasattr(_probe, a) for a in SRC_PRIVATE)
+    except Exception:  # noqa: BLE001
+        _src_private_ok = False
+    if _src_private_ok:
+        chk.required_branches += SRC_REQUIRED
+    else:
+        chk.count("private_members_missing", "srchist-branches-not-required")
     chk.lean = core.LeanDriver("C06")
     rng = chk.rng
 
